@@ -55,14 +55,15 @@ def _p(pid, rules, decided, declined, explanation, level='other', floors=None, a
                       floors=floors or {}, assumptions=list(assumptions) + COMMON_ASSUMPTIONS, exhaustive=exhaustive)
 
 
-_p('C18', ['H1', 'H3', 'E10', 'H4', 'F2', 'MEMO', 'SGN0', 'SFMT'],
+_p('C18', ['H1', 'H3', 'E10', 'H4', 'F2', 'MEMO', 'SGN0', 'SFMT', 'REP'],
    decided=["every struct-style code and endianness prefix maps to the dtype struct defines (regex classes = "
             "replacement tables = size table = struct.calcsize; prefix branches exhaustive)",
             "native-endian aliases point at the le/be dtype in the matching sys.byteorder branch (both branches, "
             "including the one this host never executes)",
             "Array accepts array.array input only when kind and width match: extend and equals both consult typecode "
             "and itemsize of the foreign array",
-            'every format handed to struct.pack/unpack/calcsize carries an explicit byte-order prefix, so code sizes are the documented standard ones on every platform'],
+            'every format handed to struct.pack/unpack/calcsize carries an explicit byte-order prefix, so code sizes are the documented standard ones on every platform',
+            "a multiplier in front of a struct token with several codes repeats the whole group in order ('2*<hB' is h,B,h,B, as struct and the written-out form have it)"],
    declined=["byte-for-byte equality with struct.pack for every value; byteswap twice = identity (run-time values)"],
    explanation="Static table agreement: the character classes of the four struct regexes (via re._parser), the keys "
                "of REPLACEMENTS_BE/LE/NE and PACK_CODE_SIZE are compared with each other and with "
@@ -71,7 +72,7 @@ _p('C18', ['H1', 'H3', 'E10', 'H4', 'F2', 'MEMO', 'SGN0', 'SFMT'],
                "prefix; both sys.byteorder alias branches of __init__.py are read from the syntax tree.",
    floors={'H1': 60, 'H3': 120})
 
-_p('C17', ['H6', 'DELEG', 'L', 'A7', 'E5', 'OPT', 'J1', 'WIN', 'PAD'],
+_p('C17', ['H6', 'DELEG', 'L', 'A7', 'E5', 'OPT', 'J1', 'WIN', 'PAD', 'TRAIL'],
    decided=["tofile writes exactly tobytes(), for sizes that span the writer's chunk boundary: the chunk size folds to a "
             "positive multiple of 8, so only the final chunk can be zero-padded (the > 100 MiB case no test reaches); "
             "every write is chunk.tobytes()",
@@ -81,7 +82,8 @@ _p('C17', ['H6', 'DELEG', 'L', 'A7', 'E5', 'OPT', 'J1', 'WIN', 'PAD'],
             "read-back routes (bytes, bitarray, file, BytesIO with offset/length) copy the selected window, agree on "
             "bounds checks and use absolute positions; the bounds test of each windowed route equals, as a linear form, the end of "
             "the window it slices out, and the BytesIO byte pre-slice covers the bit window",
-            'serialisation reads bits through tobytes()/tofile(), which zero the pad bits; never through a raw view of the bitarray buffer'],
+            'serialisation reads bits through tobytes()/tofile(), which zero the pad bits; never through a raw view of the bitarray buffer',
+            'Array.fromfile / extend append whole items only: after refusing trailing bits a method never appends the raw conversion of caller-supplied data of arbitrary length'],
    declined=["zero padding and losslessness as values for every content/window/size (inside bitarray.tobytes)"],
    explanation="Constant folding of the chunk-size expression that reaches Bits.cut in Bits.tofile; delegation and guard "
                "dominance checks; ingest feature matrix.")
@@ -137,7 +139,7 @@ _p('C04', ['A1', 'A2', 'A3', 'A4', 'A5', 'A6', 'A7', 'A8', 'A9', 'A10', 'A11', '
                "the resolved call graph, per concrete class).",
    floors={'A1': 60, 'A4': 25, 'A5': 100})
 
-_p('C01', ['K', 'E6', 'J2', 'A10', 'A1', 'A11', 'SLN', 'IDX1'],
+_p('C01', ['K', 'E6', 'J2', 'A10', 'A1', 'A11', 'SLN', 'IDX1', 'G3'],
    decided=["the result of +, *, slicing and their reflected forms has exactly the class of the left (bitstring) operand, "
             "for each of the four classes",
             "a negative repeat count raises ValueError (guard agreement among __mul__/__imul__; __rmul__ delegates)",
@@ -145,7 +147,8 @@ _p('C01', ['K', 'E6', 'J2', 'A10', 'A1', 'A11', 'SLN', 'IDX1'],
             "reach no read of the stream position or file name, and temporaries they mutate own fresh stores",
             "non-in-place operations of the mutable classes return new objects (never self or an operand); installed stores are never shared with a mutable object",
             "negative and omitted slice bounds keep their meaning: no arithmetic on the raw start/stop of a caller's slice before "
-            "slice.indices()/indices(); no single position widened to the window [k, k+1) unless known non-negative"],
+            "slice.indices()/indices(); no single position widened to the window [k, k+1) unless known non-negative",
+            "len and concatenation do not depend on the bit-numbering option: on every class, + and reflected + reach no mode-switched append/prepend or positional accessor (the left operand's bits come first in s.bin in both modes)"],
    declined=["agreement of every index/slice/step/concatenation/repetition result with the string model, and IndexError "
              "for out-of-range indices: run-time index arithmetic inside bitarray and offset_slice_indices_lsb0"],
    explanation="Class-provenance typing of every return of the operator/slicing methods per concrete class; sibling guard "
